@@ -67,5 +67,13 @@ Trace == [tid |-> 0, kind |-> IF Side = "S" THEN "src" ELSE "dst", cfg |-> cfg, 
           fs0 |-> SetToSeq(Fs0(cfg)), nfaults |-> 0, ncorrupt |-> 0, done |-> TRUE]
 Bad == { v \in Violations(Trace) : <<v.prop, v.clause>> \notin Allowed }
 NoViolation == Bad = {} \/ (PrintT(<<"MODELVIOLATION", Bad, ins>>) /\ PrintT("VSOLO" \o ToJson([c |-> cfg.id, ins |-> ins])) /\ FALSE)
-EmitSeq == (Emit /\ Len(ins) = Depth) => PrintT("SOLO" \o ToJson([c |-> cfg.id, ins |-> ins]))
+\* the behavioural signature of a sequence: per call the step reached, the PDU kinds emitted, the exception class, the fault
+\* callbacks and the indication kinds.  The harness replays at least one sequence of every signature (coverage-guided choice
+\* among the millions of sequences) before it fills up with a uniform sample.
+RECURSIVE CatS(_, _, _)
+CatS(q, f(_), i) == IF i > Len(q) THEN "" ELSE f(q[i]) \o (IF i < Len(q) THEN "+" ELSE "") \o CatS(q, f, i + 1)
+EvSig(e) == e.post.step \o "," \o CatS(e.out, LAMBDA p : p.t, 1) \o "," \o e.exc \o "," \o CatS(e.flt, LAMBDA f : f.k \o "-" \o f.cond, 1)
+            \o "," \o CatS(e.ind, LAMBDA x : x.k, 1) \o "," \o e.ret
+SigOf == CatS(tr, EvSig, 1)
+EmitSeq == (Emit /\ Len(ins) = Depth) => PrintT("SOLO" \o cfg.mode \o ";" \o SigOf \o "|" \o ToJson([c |-> cfg.id, ins |-> ins]))
 ====
